@@ -77,14 +77,27 @@ def judge(case, acc, ctx):
         from suit_generator import cmd_mpi
 
         mpi = os.path.join(d, "mpi.hex")
-        cmd_mpi.main(mpi="generate", output_file=mpi, vendor_name=vendor, class_name=cls, address=0x1000, size=48, downgrade_prevention_enabled=False,
-                     independent_updates=False, signature_verification=None, file=None)
-        segs = ihex.segments(hexcheck.read(mpi, "MPI file"))
-        rec = segs[0][1] if len(segs) == 1 else b""
-        if rec[16:32] != vid:
-            problems.append(f"MPI vendor UUID {rec[16:32].hex()} != {vid.hex()}")
-        if rec[32:48] != cid:
-            problems.append(f"MPI class UUID {rec[32:48].hex()} != {cid.hex()}")
+        # (the reserved size is the caller's: the identifiers are whole whatever is reserved - or the request is refused)
+        msize = [48, 48, 64, 47, 40, 33, 16, 4096][(len(vendor) + 2 * len(cls)) % 8]
+        acc.note(f"mpi-size:{'<48' if msize < 48 else '>=48'}")
+        refused_small = False
+        try:
+            cmd_mpi.main(mpi="generate", output_file=mpi, vendor_name=vendor, class_name=cls, address=0x1000, size=msize, downgrade_prevention_enabled=False,
+                         independent_updates=False, signature_verification=None, file=None)
+        except boot.HarnessError:
+            raise
+        except Exception:
+            if msize >= 48:
+                raise
+            refused_small = True  # a reserved size below the record size may be refused
+            acc.note("mpi-size:<48 refused")
+        if not refused_small:
+            segs = ihex.segments(hexcheck.read(mpi, "MPI file"))
+            rec = segs[0][1] if len(segs) == 1 else b""
+            if rec[16:32] != vid:
+                problems.append(f"MPI vendor UUID {rec[16:32].hex()} != {vid.hex()} (reserved size {msize})")
+            if rec[32:48] != cid:
+                problems.append(f"MPI class UUID {rec[32:48].hex()} != {cid.hex()} (reserved size {msize})")
         # (3) role mapping through image boot
         tab = c07.assignment_table(soc, config)
         names = [vc for _, vc in config]
@@ -236,6 +249,6 @@ def replay(ctx, check, case):
 def finalize(ctx, m, ev):
     c = m["counters"]
     for n in ["vendor:empty", "vendor:upper", "vendor:non-ascii", "vendor:space", "class:empty", "class:long", "config", "dup-config", "placed", "not-named",
-              "config-collides-with-default", "soc:nrf9280", "uuid-members:name-first", "uuid-members:namespace-first"]:
+              "config-collides-with-default", "soc:nrf9280", "uuid-members:name-first", "uuid-members:namespace-first", "mpi-size:<48"]:
         if not c.get(n):
             raise boot.HarnessError(f"interesting class {n} is empty")
